@@ -61,6 +61,18 @@ Section Journal.
   Definition count (from to : Z) (j : list chunk) : N * N :=
     let r := count_loop from to j [] 0%N in (N.of_nat (length (fst r)), snd r).
 
+  (* ---------- a journal line the reader's scanner cannot take (the pinned reader, "v0") ----------
+     reader.go reads the journal with a bufio.Scanner and its default buffer: a line of 64 KiB or more makes Scan()
+     return false (bufio.ErrTooLong), the loop ends as it does at the end of the file, and Err() is never looked at:
+     that chunk and EVERYTHING behind it are left out, no error is returned.  [long c] = the JSON text of chunk c does
+     not fit: a sparse sketch of some 21 000 addresses and more (measured: 20 000 addresses give 61 585 bytes, 40 000
+     give 107 209), every dense sketch (2^18 registers, about 350 000 bytes).  The repaired reader (larger buffer,
+     Err() returned) is [count] above: it reads every line. *)
+  Variable long : chunk -> bool.
+  Fixpoint scanned (j : list chunk) : list chunk :=
+    match j with [] => [] | c :: r => if long c then [] else c :: scanned r end.
+  Definition count_v0 (from to : Z) (j : list chunk) : N * N := count from to (scanned j).
+
   (* ---------- a sink that fails: what WriteIPSetToDisk does on each error path ----------
      WriteIPSetToDisk:  currentTime := now; data := Dump(); line := json(lastWriteTime, currentTime, data) + "\n";
                         _, err = io.Copy(writer, line); if err != nil { log; return }       -- nothing else changes
